@@ -23,6 +23,7 @@
 //!              The default-argument and initialiser dependencies are read off the typed IR by a walker of our own
 //!              (`ir_deps`), not taken from the usage analysis under test.
 mod sem;
+mod vec;
 
 use crate::util::*;
 use rssl::ast;
@@ -1589,6 +1590,17 @@ pub fn run(args: &Args, out: &mut Out) {
         sem::dump(&args.extra[1]);
         return;
     }
+    if args.extra.first().map(|s| s.as_str()) == Some("vdump") {
+        // debugging aid: harness c02 vdump FILE
+        vec::dump(&args.extra[1]);
+        return;
+    }
+    if args.extra.first().map(|s| s.as_str()) == Some("vgen") {
+        // debugging aid: harness c02 vgen K -> the K-th program of the vector stream
+        let k: u64 = args.extra.get(1).and_then(|s| s.parse().ok()).unwrap_or(0);
+        println!("{}", vec::vprogram(args.seed, k));
+        return;
+    }
     if let Some(lines) = args.request_lines() {
         for line in lines {
             if line.starts_with("C02.thread\t") {
@@ -1597,6 +1609,10 @@ pub fn run(args: &Args, out: &mut Out) {
                 run_src(&line, out, &mut hist);
             } else if line.starts_with("C02.gen\t") {
                 sem::run_request(&line, out, &mut hist);
+            } else if line.starts_with("C02.vfn\t") {
+                vec::run_request(&line, out, &mut hist);
+            } else if line.starts_with("C02.vex\t") {
+                vec::run_vex_request(&line, out, &mut hist);
             }
         }
         out.stat(&format!("{{\"mode\":\"replay\",\"hist\":{}}}", hist.json()));
@@ -1637,5 +1653,9 @@ pub fn run(args: &Args, out: &mut Out) {
     }
     // semantic half: scalar-subset programs through the real exporter (tree + oracle on the emitted tree)
     sem::run_stream(args, out, &mut hist);
+    // vector / matrix / struct / array / enum programs through the real exporter (C02.vfn)
+    vec::run_stream(args, out, &mut hist);
+    // expression functions of the Lean vector layer (C02.vex): model tree / values compared, oracle as above
+    vec::run_vex_stream(args, out, &mut hist);
     out.stat(&format!("{{\"programs\":{},\"hist\":{}}}", n, hist.json()));
 }
